@@ -60,7 +60,7 @@ struct Operand
 
 struct Stats
 {
-    uint64_t trials = 0, calls = 0, alias = 0, noncanon_in = 0, noncanon_out = 0, regalias = 0, third_calls = 0, exact_calls = 0, huge_calls = 0, huge_unavailable = 0;
+    uint64_t trials = 0, calls = 0, alias = 0, noncanon_in = 0, noncanon_out = 0, regalias = 0, third_calls = 0, exact_calls = 0, huge_calls = 0, huge_unavailable = 0, bcast_alias = 0;
     uint64_t stride_in[9] = {0}, stride_out[9] = {0}, idx_in[IK_N] = {0}, idx_out[IK_N] = {0};
     uint64_t shape_in[6] = {0}, shape_out[6] = {0};
 };
@@ -411,6 +411,17 @@ static void run_trial(Ctx &cx, const c17::Ov &ov, uint64_t tseed, vf::Report &re
             x.regalias = (t.a.sh == c17::REG && t.b.sh == c17::REG) ? 1 + (int)((tseed >> 2) & 1) : (t.a.sh == c17::REG ? 1 : 2);
             if (pass == 0) st.regalias++;
         }
+        // one trial in four of the overloads with a memory result and a broadcast scalar: the scalar argument is an lvalue that lives
+        // in the result array (lane j's cell holds the scalar before the call) - every lane must still use the value that was passed
+        if (is_mem(t.c.sh) && !t.alias && (t.a.sh == c17::BCAST || t.b.sh == c17::BCAST) && (tseed & 3) == 2)
+        {
+            int which = (t.a.sh == c17::BCAST && t.b.sh == c17::BCAST) ? 1 + (int)((tseed >> 2) & 1) : (t.a.sh == c17::BCAST ? 1 : 2);
+            int j = (int)((tseed >> 3) % (uint64_t)L);
+            x.bcast_alias = which;
+            x.bcast_cell = t.c.pos[j];
+            t.c.ar->cells[t.c.lead + t.c.pos[j]] = which == 1 ? t.a.bval : t.b.bval;
+            if (pass == 0) st.bcast_alias++;
+        }
         c17::Call before = x;
 
         ov.fn(x);
@@ -596,6 +607,7 @@ static void flush_stats(const c17::Ov &ov, const Stats &st, vf::Report &rep)
     rep.cls("mode:result_register_is_input_register", st.regalias);
     rep.cls("mode:third_call_same_addresses_changed_contents", st.third_calls);
     rep.cls("mode:inputs_of_exact_extent_before_unmapped_page_or_redzone", st.exact_calls);
+    if (st.bcast_alias) rep.cls("mode:broadcast_scalar_is_an_lvalue_in_the_result_array", st.bcast_alias);
     if (st.huge_calls) rep.cls("mode:very_large_stride_or_index(sparse_mapping)", st.huge_calls);
     if (st.huge_unavailable) rep.cls("mode:very_large_stride_unavailable(mmap_refused)", st.huge_unavailable);
     rep.cls("values:trials_with_noncanonical_input", st.noncanon_in);
